@@ -84,6 +84,7 @@ type Eval struct {
 	inOld bool
 	loopOld *State // state at entry of the loop whose invariant is being evaluated (lold)
 	overlay map[ssa.Value]Val // loop-cut overlay to install while this evaluator runs
+	exitCtx bool              // evaluating ensures / exit-ghost: a parameter name means its entry value
 }
 
 func (ex *Exec) newEval(st, old *State) *Eval {
@@ -412,7 +413,7 @@ func (ev *Eval) ident(name string) TV {
 	if v, ok := ev.params[name]; ok {
 		// a parameter that the body reassigns: inside the body (loop cuts, ghost updates) the name means the
 		// current value; in requires/ensures it means the entry value. param(x) always means the entry value.
-		if ev.point != nil {
+		if ev.point != nil && !ev.exitCtx {
 			if tv, ok := ev.ex.resolveLocal(name, ev.point, ev.st); ok {
 				return tv
 			}
@@ -876,6 +877,13 @@ func (ev *Eval) call(e ECall) TV {
 			}
 		}
 		return TV{T: "false", Ty: vtBool}
+	case "cyc":
+		// cyc(s, i): byte i of s repeated for ever (s[i mod len(s)]); same symbol as in the contract of strings.Repeat
+		x, i := arg(0), arg(1)
+		ev.vc().strPrelude()
+		ev.vc().declareOnce("str:cyc", `(declare-fun str_cyc (Str Int) Int)
+(assert (forall ((s Str) (i Int)) (! (=> (and (<= 0 i) (< i (slen s))) (= (str_cyc s i) (select (sbytes s) i))) :pattern ((str_cyc s i)))))`)
+		return TV{T: "(str_cyc " + x.T + " " + i.T + ")", Ty: goVT(types.Typ[types.Uint8])}
 	case "raw":
 		// raw(s, e): the element s[e] addressed by plain arithmetic (off+e) instead of the ix symbol, so that a
 		// quantifier triggered on s[k] does not re-trigger on the terms its own body creates (e.g. s[(k-1)/2])
@@ -1288,6 +1296,22 @@ func (ex *Exec) resolveLocal(name string, pt *progPoint, st *State) (TV, bool) {
 			}
 		}
 	}
+	if name == "$pos" {
+		// byte position of the next rune of the string iteration of the enclosing loop
+		for _, l := range ex.loops {
+			if l.Header == pt.block || l.Blocks[pt.block] {
+				for _, ins := range l.Header.Instrs {
+					if nx, ok := ins.(*ssa.Next); ok {
+						if rg, ok := nx.Iter.(*ssa.Range); ok {
+							if it := ex.rangeIters[rg]; it != nil && it.isStr {
+								return TV{T: ex.get(st, it.posKey, "Int"), Ty: vtInt}, true
+							}
+						}
+					}
+				}
+			}
+		}
+	}
 	if name == "$key" {
 		// the key produced by the map iteration of the enclosing loop (for `for _, v := range m`)
 		for _, l := range ex.loops {
@@ -1295,8 +1319,11 @@ func (ex *Exec) resolveLocal(name string, pt *progPoint, st *State) (TV, bool) {
 				for _, ins := range l.Header.Instrs {
 					if nx, ok := ins.(*ssa.Next); ok {
 						if rg, ok := nx.Iter.(*ssa.Range); ok {
-							if it := ex.rangeIters[rg]; it != nil && !it.isStr {
+							if it := ex.rangeIters[rg]; it != nil {
 								if v := ex.val(nx); len(v.Tup) == 3 {
+									if it.isStr {
+										return TV{T: v.Tup[1].T, Ty: vtInt}, true
+									}
 									mk := ex.mapComps(it.mt)
 									return TV{T: v.Tup[1].T, Ty: goVT(mk.kt)}, true
 								}
